@@ -178,6 +178,7 @@ func (fr *frame) instr(b *ssa.BasicBlock, ins ssa.Instruction, st *state) bool {
 		if inv := fr.fieldInv(l, v.S); inv != "" {
 			g.addObl(fr, st, "fieldinv", l.base+":"+fr.srcAnchor(x.Pos(), nil, "store"), "data-structure invariant of "+l.base+" holds for the stored value", x.Pos(), inv)
 		}
+		fr.storeSiteObligations(x, l, v, st)
 		g.store(st, l, v)
 		if v.Clo != nil && l.local && len(l.idx) == 0 {
 			if a, ok := x.Addr.(*ssa.Alloc); ok {
@@ -946,4 +947,32 @@ func (fr *frame) fieldInv(l *Loc, v string) string {
 		return ""
 	}
 	return t
+}
+
+// storeSiteObligations emits the `storesite Type.field` clauses of the function under verification at a store to
+// that field: $base is the object stored into, $val the stored value; evaluated in the state before the store.
+// Stores in inlined callees count too (they are part of this function's behaviour).
+func (fr *frame) storeSiteObligations(x *ssa.Store, l *Loc, v *Term, st *state) {
+	g := fr.g
+	if g.con == nil || len(g.con.StoreSites) == 0 || g.dry || !strings.HasPrefix(l.base, "F_") || len(l.idx) != 1 {
+		return
+	}
+	field := strings.TrimPrefix(l.base, "F_")
+	for _, c := range g.con.StoreSites {
+		if c.Field != field {
+			continue
+		}
+		var bt types.Type
+		if fa, ok := x.Addr.(*ssa.FieldAddr); ok {
+			bt = fa.X.Type()
+		}
+		names := map[string]*Term{"base": {S: l.idx[0], T: bt}, "val": v}
+		sc := &specCtx{fr: fr, st: st, old: fr.entryState(), names: names, block: x.Block(), phiPred: -1}
+		cond := sc.tr(c.Expr)
+		if sc.err != "" {
+			g.rejectf("storesite %s [%s]: %s", c.Field, c.Label, sc.err)
+			continue
+		}
+		g.addObl(fr, st, "storesite", c.Field+"["+c.Label+"]:"+fr.srcAnchor(x.Pos(), nil, "store"), "store-site condition "+c.Label, x.Pos(), cond)
+	}
 }
